@@ -33,7 +33,6 @@ OWNER = {
     "id-out-of-range": "C06", "id-reused": "C06", "id-request-raised": "C06", "id-known": "C06", "id-response-missing": "C06",
     "sent-while-asleep": "C07", "awake-delayed": "C07",
     "burst-missing": "C08", "burst-spurious": "C08", "burst-order": "C08", "burst-raised": "C08",
-    "desired-undeliverable": "C08",
     "ota-reply-missing": "C10", "ota-reply-spurious": "C10", "ota-reply-wrong": "C10",
     "ota-malformed-changed-session": "C10", "ota-malformed-replied": "C10", "ota-request-raised": "C10", "reboot-missing": "C10",
     "reboot-spurious": "C10",
@@ -403,6 +402,8 @@ class NetRun:
             tier, fields = classify(seen_text, self.version)
         self.probe("tierA_lines" if tier == "A" else "tierB_lines")
         snap_before = (W.projection(gateway.sensors), W.transient(gateway.sensors), W.ota_state(gateway))
+        self._ota_before = snap_before[2]
+        conn_before = world.device.current() if self.broker is None else None
         t_before = world.sim.time()
         if at_save == "tick" and self.broker is None:
             # the line is in flight when the next scheduled save fires: in the threaded flavours it sits in
@@ -446,6 +447,11 @@ class NetRun:
             # not subscribed: the broker never delivers it; nothing may happen
             fields = None
             self.probe("mqtt_not_delivered")
+        if (conn_before is not None and not conn_before.is_open and self.link_fault is None and not at_save
+                and self.flavour not in ("tcp", "atcp") and getattr(conn_before, "closed_by", None) not in (None, "driver")):
+            # no fault was injected and yet the gateway itself closed the link while handling this line ("the gateway keeps
+            # receiving and sending afterwards"; a re-dial may follow, what was in flight is gone)
+            self.add(vio("connection-torn-down", {"line": text, "closed_by": conn_before.closed_by}, closed_by=conn_before.closed_by))
         if fatal:
             if fields is not None:
                 exp = self.model.on_line(fields, (int(t_before), int(t_after)))
@@ -866,6 +872,10 @@ class NetRun:
             self.probe("ota_malformed_requests")
             if lines:
                 self.add(vio("ota-malformed-replied", {"request": fields[5], "got": lines}))
+            before = getattr(self, "_ota_before", None)
+            after = W.ota_state(self.world.gateway)
+            if before is not None and after != before:
+                self.add(vio("ota-malformed-changed-session", {"request": fields[5], "before": repr(before)[:300], "after": repr(after)[:300]}))
             return
         cfgx = getattr(exp, "ota_config", None)
         blk = getattr(exp, "ota_block", None)
